@@ -38,6 +38,9 @@ class SymSink:
             lo = pos(data.lo)
             self.segs.append(lambda rel: src.select(iadd(lo, rel)), data.ln, data.cap)
             return data.ln
+        if getattr(data, "c_contiguous", True) is False and hasattr(data, "obj"):
+            # the buffer export of a non-C-contiguous array: BytesIO / file objects refuse it
+            raise BufferError("memoryview: underlying buffer is not C-contiguous")
         raise TypeError("a bytes-like object is required, not %r" % type(data))
 
     def flush(self):
@@ -104,6 +107,8 @@ class NatSink:
 
     def write(self, b):
         self.writes += 1
+        if isinstance(b, memoryview) and not b.c_contiguous:
+            raise BufferError("memoryview: underlying buffer is not C-contiguous")     # what BytesIO / file objects do
         self.data += bytes(b)
         return len(b)
 
